@@ -13,9 +13,14 @@
 //! rec <fn>                    -> 1 | 0     <fn> lies on a call cycle of runtime.rs (+ recursive builtins)
 //! path <f1>,<f2>,…            -> ok frames=<n> guarded=<k> maxfree=<m> | no-edge <a>-><b> | empty
 //! front <stage> <fn>          -> rec=<0|1> guard=<0|1>     stage ∈ lexer parser resolver cfg
+//! arm <StmtKind>              -> descends=<0|1> probed=<0|1> | unknown-arm
+//!                                the arm of `exec_stmt` for that statement kind: does it descend into a nested
+//!                                block (`exec_block_with_flow`), and does EVERY path to the descent pass a probe
+//!                                (a guard function is called on the straight-line prefix of the arm, directly or
+//!                                through functions whose own straight-line prefix probes)
 //! ```
 //! `gen` writes: `budget`, `guard`/`rec` for every function seen, `front` for every function of the
-//! front-end files, and random walks (`path`) over the scanned graph starting at `run_inner`.
+//! front-end files, `arm` for every statement kind `exec_stmt` matches on, and random walks (`path`) over the scanned graph starting at `run_inner`.
 //! The source root is `$NV_REPO` (default `/repo`).
 
 use std::collections::{BTreeMap, BTreeSet};
@@ -530,6 +535,135 @@ struct Scan {
     edges: BTreeMap<String, BTreeSet<String>>,
     rec: BTreeSet<String>,
     guards: BTreeSet<String>,
+    /// statement kind -> (the arm of `exec_stmt` descends into a block, a probe is certain before the descent)
+    arms: BTreeMap<String, (bool, bool)>,
+}
+
+// ---------------------------------------------------------------------------------------------
+// a probe on every path: straight-line prefixes
+
+fn word_at(s: &[u8], i: usize, w: &[u8]) -> bool {
+    s[i..].starts_with(w) && (i == 0 || !is_ident(s[i - 1])) && (i + w.len() >= s.len() || !is_ident(s[i + w.len()]))
+}
+
+/// Length of the part of `text` that every execution runs through before it can branch: up to the first
+/// `if` / `match` / `while` / `for` / `else` / jump / short-circuit operator / closure bar; the condition of
+/// an `if` or `while` and the scrutinee of a `match` are evaluated unconditionally and still belong to it
+/// (up to the `{` that opens the block).  `loop {` is entered unconditionally; `?` leaves with an error.
+fn straight_prefix_len(text: &[u8]) -> usize {
+    const EXTEND: [&[u8]; 3] = [b"if", b"match", b"while"];
+    const STOP: [&[u8]; 5] = [b"for", b"return", b"break", b"continue", b"else"];
+    let mut i = 0;
+    while i < text.len() {
+        if text[i] == b'|' || text[i..].starts_with(b"&&") {
+            return i;
+        }
+        if STOP.iter().any(|w| word_at(text, i, w)) {
+            return i;
+        }
+        if let Some(w) = EXTEND.iter().find(|w| word_at(text, i, w)) {
+            let mut j = i + w.len();
+            let mut par = 0i32;
+            while j < text.len() {
+                match text[j] {
+                    b'(' | b'[' => par += 1,
+                    b')' | b']' => par -= 1,
+                    b'{' if par == 0 => return j,
+                    b'|' => return j,
+                    b'&' if text[j..].starts_with(b"&&") => return j,
+                    _ => {}
+                }
+                j += 1;
+            }
+            return j;
+        }
+        i += 1;
+    }
+    text.len()
+}
+
+/// Own functions called (`name(`) inside `text`.
+fn calls_in(text: &[u8], own: &BTreeSet<String>) -> Vec<String> {
+    let mut out = Vec::new();
+    let mut i = 0;
+    while i < text.len() {
+        if !(text[i].is_ascii_lowercase() || text[i] == b'_') || (i > 0 && is_ident(text[i - 1])) {
+            i += 1;
+            continue;
+        }
+        let st = i;
+        while i < text.len() && is_ident(text[i]) {
+            i += 1;
+        }
+        let mut j = i;
+        while j < text.len() && text[j] == b' ' {
+            j += 1;
+        }
+        if j < text.len() && text[j] == b'(' {
+            let name = String::from_utf8_lossy(&text[st..i]).to_string();
+            if own.contains(&name) {
+                out.push(name);
+            }
+        }
+    }
+    out
+}
+
+/// Is a call of a guard function certain before `text` can branch?
+fn must_probe(text: &[u8], bodies: &BTreeMap<String, Vec<u8>>, own: &BTreeSet<String>, guard_fns: &BTreeSet<String>, fuel: u32) -> bool {
+    let pre = &text[..straight_prefix_len(text)];
+    calls_in(pre, own).iter().any(|h| {
+        guard_fns.contains(h)
+            || (fuel > 0 && bodies.get(h).is_some_and(|b| must_probe(&b[1..], bodies, own, guard_fns, fuel - 1)))
+    })
+}
+
+/// The `Stmt::<Kind> … =>` arms of `exec_stmt`: kind -> (descends, probed on every path before the descent).
+fn exec_stmt_arms(fns: &[FnDef], own: &BTreeSet<String>, guard_fns: &BTreeSet<String>) -> BTreeMap<String, (bool, bool)> {
+    const DESCENT: &[u8] = b"exec_block_with_flow(";
+    let mut bodies: BTreeMap<String, Vec<u8>> = BTreeMap::new();
+    for f in fns {
+        bodies.entry(f.name.clone()).or_insert_with(|| f.body.clone());
+    }
+    let Some(body) = bodies.get("exec_stmt").cloned() else { return BTreeMap::new() };
+    // arm heads: `Stmt::Kind`, an optional `{..}` / `(..)` pattern, `=>`
+    let mut heads: Vec<(usize, usize, String)> = Vec::new();
+    let mut from = 0;
+    while let Some(p) = find_sub(&body, b"Stmt::", from) {
+        from = p + 6;
+        let mut j = p + 6;
+        let st = j;
+        while j < body.len() && is_ident(body[j]) {
+            j += 1;
+        }
+        let kind = String::from_utf8_lossy(&body[st..j]).to_string();
+        let skip_ws = |mut k: usize| {
+            while k < body.len() && (body[k] == b' ' || body[k] == b'\n') {
+                k += 1;
+            }
+            k
+        };
+        j = skip_ws(j);
+        if j < body.len() && (body[j] == b'{' || body[j] == b'(') {
+            let close = if body[j] == b'{' { b'}' } else { b')' };
+            match body[j..].iter().position(|&c| c == close) {
+                Some(o) => j = skip_ws(j + o + 1),
+                None => continue,
+            }
+        }
+        if body[j..].starts_with(b"=>") && kind.chars().next().is_some_and(char::is_uppercase) {
+            heads.push((p, j + 2, kind));
+        }
+    }
+    let mut out = BTreeMap::new();
+    for (i, (_p, after, kind)) in heads.iter().enumerate() {
+        let end = heads.get(i + 1).map_or(body.len(), |h| h.0);
+        let text = &body[*after..end];
+        let descent = find_sub(text, DESCENT, 0);
+        let probed = descent.is_some_and(|d| must_probe(&text[..d], &bodies, own, guard_fns, 4));
+        out.insert(kind.clone(), (descent.is_some(), probed));
+    }
+    out
 }
 
 fn limit_const(body: &[u8]) -> bool {
@@ -595,7 +729,8 @@ impl Scan {
         }
         let rec = on_cycles(&g);
         let edges = through_nonrecursive(&g, &rec);
-        Scan { budget, fns: own, edges, rec, guards }
+        let arms = exec_stmt_arms(&fns, &own, &guard_fns);
+        Scan { budget, fns: own, edges, rec, guards, arms }
     }
 
     fn front(stage: &str) -> Option<Scan> {
@@ -632,7 +767,7 @@ impl Scan {
             }
         }
         let edges = through_nonrecursive(&g, &rec);
-        Some(Scan { budget: 0, fns: own, edges, rec, guards })
+        Some(Scan { budget: 0, fns: own, edges, rec, guards, arms: BTreeMap::new() })
     }
 }
 
@@ -748,6 +883,14 @@ fn generate(args: &[String]) -> i32 {
             }
         }
     }
+    // the arms of exec_stmt as scanned, the kinds the model knows, and one it does not
+    let mut kinds: BTreeSet<String> = sc.arms.keys().cloned().collect();
+    for k in ["If", "Loop", "Block", "Assign", "AssignExisting", "AssignIndex", "FunctionDef", "Return", "Break", "Continue", "Expression", "Nope"] {
+        kinds.insert(k.to_string());
+    }
+    for k in &kinds {
+        out.line(&format!("arm {k}"));
+    }
     // random walks over the scanned graph (recursive core), from run_inner
     for _ in 0..n {
         let len = 2 + rng.below(40);
@@ -784,6 +927,10 @@ fn run() -> i32 {
             ["front", st, f] => match fronts.get(st) {
                 Some(fs) => format!("rec={} guard={}", bit(fs.rec.contains(*f)), bit(fs.guards.contains(*f))),
                 None => "bad-op".to_string(),
+            },
+            ["arm", k] => match sc.arms.get(*k) {
+                Some((d, p)) => format!("descends={} probed={}", bit(*d), bit(*d && *p)),
+                None => "unknown-arm".to_string(),
             },
             ["path", p] => path_answer(&sc, p),
             _ => "bad-op".to_string(),
